@@ -129,11 +129,66 @@ def rule_r3(chk, facts):
            '"\\\\" is not continued; path %s' % ' '.join(w[-6:]))
 
 
+def rule_r4(chk, facts, P):
+    chk.rule('C16-R4', 'blank, comment-only and label-only lines do not age the state a code generator carries from one '
+             'statement to the next: the copy "working = carrier" at the top of a line decoder (pending prefix, pipeline '
+             'hazard, delay slot, repeat flag) is executed only behind the test that the statement has a mnemonic '
+             '(!Memo("") / *OpPart.str.p_str != 0)', min_instances=5)
+    S = P.slots()
+
+    def root(e):
+        e = strip(e)
+        while e[0] == 'i':
+            e = strip(e[1])
+        return e
+
+    def nonempty(a):
+        e = a[1] if a[0] in ('z', 'nz') else None
+        if a[0] == 'nz' and isinstance(e, tuple) and e and e[0] == 'call' and e[1] in (('fn', 'strcmp'), ('fn', 'as_strcasecmp')) and \
+                any(nocast(x) == ('s', '') for x in e[2]):
+            return True
+        if a[0] == 'nz' and isinstance(e, tuple) and e and e[0] == 'u' and e[1] == '*' and mentions(e, lambda x: var_is(x, {'OpPart'})):
+            return True
+        if a[0] == 'cmp' and a[1] == '!=' and mentions(a[2], lambda x: var_is(x, {'OpPart'})) and const_val(a[3]) == 0:
+            return True
+        return False
+    n = 0
+    for u in P.units:
+        if not is_generator_unit(u.name):
+            continue
+        for m in sorted({f for f in S.get('g:MakeCode', ()) if f.unit is u}, key=lambda x: x.name):
+            for b, i, ln, nd in m.nodes():
+                if not (is_assign(nd) and nd[1] == '='):
+                    continue
+                v, w = root(nd[2]), root(nd[3])
+                if not (v[0] == 'gs' and w[0] == 'gs' and v != w):
+                    continue
+                kw = u.name + ':' + w[1]
+                # a carrier: also written by the decode functions of the module
+                if not any(f is not m and f.file == u.name and any(k == kw and how in ('=', 'op', 'elem') for k, how, *_r in P.writes(f))
+                           for f in u.funcs.values()) and \
+                        not any(k == kw and how in ('=', 'op', 'elem') for k, how, *_r in P.writes(m)):
+                    continue
+                if not any(k == kw for k, how, *_r in P.writes(m)) and not any(
+                        f.file == u.name and f.name.startswith('Decode') and any(k == kw for k, how, *_r in P.writes(f)) for f in u.funcs.values()):
+                    continue
+                n += 1
+                ok = m.guarded(b, i, lambda l: edge_has_atom(l, nonempty))[0]
+                chk.ob('C16-R4', '%s:%s:%s<-%s' % (u.name, m.name, v[1], w[1]), ok, m.loc(ln),
+                       'only for statements with a mnemonic' if ok else
+                       '%s = %s is executed for every line that reaches %s(), also blank, comment-only and label-only ones: a '
+                       'comment line between a prefix/flag-setting statement and the instruction it applies to changes the code' %
+                       (v[1], w[1], m.name))
+    if n < 5:
+        raise AnalysisBroken('only %d carrier copies found in the line decoders' % n)
+
+
 def run(chk, facts, info):
     P = facts.program('asl')
     rule_r1(chk, facts, P)
     rule_r2(chk, facts, P)
     rule_r3(chk, facts)
+    rule_r4(chk, facts, P)
     chk.note('Decided: uniform comparison style per operand text in every code generator function, up-casing of the '
              'mnemonic before all lookups, CR stripping before the continuation test. Not decided: blanks, comments, '
              'label colon, INCLUDE/macro wrapping.')
